@@ -2,7 +2,7 @@
 # usage: run_seed.sh <seed dir> <property id> [tier]   — applies the seeded patch to /repo, runs the check, reverts.
 S=$(realpath "$1"); P=$2; T=${3:-quick}
 cd /repo && git diff --quiet || { echo "/repo has local changes"; exit 2; }
-git -C /repo apply "$S/patch.diff" || exit 2
+git -C /repo apply "$S/patch.diff" || { echo "run_seed: $S/patch.diff does not apply to /repo HEAD (rebase it)"; echo "rc=2"; exit 2; }
 /verif/bin/zv check --property $P --tier $T; rc=$?
 git -C /repo checkout -- .
 echo "rc=$rc"
